@@ -7,6 +7,7 @@
   Stated per registration call (DESIGN §8 R2).
 -/
 import Cobweb.Proofs.Kill
+import Cobweb.Proofs.ArcCount
 
 namespace Cobweb.C07
 
@@ -107,5 +108,85 @@ theorem despawn_reaction_releases (s : St) (src : Nat) (h : Handle) (hc : s.trkD
 
 example : (dropHandle ({ arcRc := fun _ => 1, arcEnt := fun _ => 9 } : St) ⟨9, some 0⟩).autoChan = [9] :=
   (drop_last _ 9 0 (by simp)).2
+
+/-! ### whole-execution theorems (invariant `ArcInv`, `Proofs/ArcCount.lean`)
+
+  For every program and every history in which the user only drops signals it holds (`SigOK`), in every state reachable
+  from the empty world: the reference count of an arc that is not a user-held signal is at least the number of handles
+  of that arc the framework holds — in the type-wide tables, in the per-entity tables, in the despawn-reactor lists, in
+  queued commands and in the despawn tracker. Hence **no premature release**: as long as one trigger of a registration
+  call is still registered, or a despawn reaction for it is pending, the count of its arc is positive, so the drop that
+  sends the reactor to the garbage collector (`drop_last`: the one that reaches zero) has not happened. -/
+
+/-- A type-wide registration keeps its arc alive. -/
+theorem registered_typewide_alive {p : Prog} {hh : Hist} (hsig : SigOK hh) {s : St} (hr : Reach p hh ({} : St) s)
+    (t : Tbl) (ty : Nat) (h : Handle) (a : Nat) (hm : h ∈ s.tbl t ty) (ha : h.arc = some a) (hu : a ∉ s.sigs) :
+    1 ≤ s.arcRc a := by
+  have I := arc_reach p hh hsig hr
+  have := I.le (ty + 1) 0 a hu
+  have := holders_ge_tbl a s t ty 0
+  have := hcount_pos_of_mem hm ha
+  omega
+
+/-- An entity-scoped registration keeps its arc alive. -/
+theorem registered_entity_alive {p : Prog} {hh : Hist} (hsig : SigOK hh) {s : St} (hr : Reach p hh ({} : St) s)
+    (e : Nat) (l : List (RType × Handle)) (rt : RType) (h : Handle) (a : Nat) (hl : s.entReactors e = some l)
+    (hm : (rt, h) ∈ l) (ha : h.arc = some a) (hu : a ∉ s.sigs) : 1 ≤ s.arcRc a := by
+  have I := arc_reach p hh hsig hr
+  have := I.le 0 (e + 1) a hu
+  have := holders_ge_ent a s e 0
+  have hm' : h ∈ entHandles s e := by
+    simp only [entHandles, hl, optHandles]
+    exact List.mem_map.mpr ⟨(rt, h), hm, rfl⟩
+  have := hcount_pos_of_mem hm' ha
+  omega
+
+/-- A despawn trigger keeps its arc alive. -/
+theorem registered_despawn_alive {p : Prog} {hh : Hist} (hsig : SigOK hh) {s : St} (hr : Reach p hh ({} : St) s)
+    (e : Nat) (h : Handle) (a : Nat) (hm : h ∈ s.tblDsp e) (ha : h.arc = some a) (hu : a ∉ s.sigs) : 1 ≤ s.arcRc a := by
+  have I := arc_reach p hh hsig hr
+  have := I.le 0 (e + 1) a hu
+  have := holders_ge_dsp a s e 0
+  have := hcount_pos_of_mem hm ha
+  omega
+
+/-- A pending despawn reaction (its handle waits in the despawn tracker, or is the one being reacted to) keeps its arc
+    alive. -/
+theorem pending_despawn_reaction_alive {p : Prog} {hh : Hist} (hsig : SigOK hh) {s : St} (hr : Reach p hh ({} : St) s)
+    (h : Handle) (a : Nat) (ha : h.arc = some a) (hu : a ∉ s.sigs)
+    (hm : (∃ sys src, (sys, src, h) ∈ s.trkDsp.prepared) ∨ s.trkDsp.curHandle = some h) : 1 ≤ s.arcRc a := by
+  have I := arc_reach p hh hsig hr
+  have hle := I.le 0 0 a hu
+  have : 1 ≤ trkH a s := by
+    rw [trkH_eq]
+    rcases hm with ⟨sys, src, hm⟩ | hm
+    · have : h ∈ s.trkDsp.prepared.map (·.2.2) := List.mem_map.mpr ⟨(sys, src, h), hm, rfl⟩
+      have := hcount_pos_of_mem this ha
+      omega
+    · simp [hm, optOne, hOne, ha]
+  simp only [holders] at hle
+  omega
+
+/-- An arc that does not exist yet has no holder and count zero. -/
+theorem unborn_arc {p : Prog} {hh : Hist} (hsig : SigOK hh) {s : St} (hr : Reach p hh ({} : St) s) (a : Nat)
+    (ha : s.nextArc ≤ a) : s.arcRc a = 0 :=
+  ((arc_reach p hh hsig hr).fresh 0 0 a ha).2
+
+example : ArcInv ({} : St) := arc_default
+
+/-- Non-vacuity: a cleanup reactor with two broadcast triggers: after registration the count of its arc (arc 0) is 2 and
+    both tables hold a handle of it. -/
+def demoProg : Prog := fun _ _ _ => none
+def demoHist : Hist :=
+  { op := fun t _ => if t = 0 then some .acts else none,
+    act := fun _ i _ => match i with
+      | 0 => some (.on .cleanup 0 false [.bc 0, .bc 1])
+      | _ => none }
+
+example : (exec demoProg demoHist 40 {}).stack = [] ∧ (exec demoProg demoHist 40 {}).arcRc 0 = 2 ∧
+    ((exec demoProg demoHist 40 {}).tbl .bc 0).map (·.arc) = [some 0] ∧
+    ((exec demoProg demoHist 40 {}).tbl .bc 1).map (·.arc) = [some 0] := by decide
+
+example : SigOK demoHist := by intro t s a h; simp only [demoHist] at h; split at h <;> cases h
 
 end Cobweb.C07
